@@ -17,6 +17,11 @@ lams jointly: edof non-increasing, F non-decreasing, J non-increasing, RSS non-d
 build_penalties linear in lam, fitted values == NumPy closed form (lstsq on the augmented system) at every lam incl. lam = 0,
 and at a large lam (chosen from the spectrum so that theory puts the fit within 1e-4 of its limit) fitted values == NumPy
 weighted least squares restricted to the null space of the varied penalty, with the squeeze inequalities.
+Judged against the REQUEST (streams route.te-keyword, limit.small-basis; `run_requested`): in every run tensor terms whose lam
+comes through the te(...) keyword (scalar, per-marginal lists, exact zeros) and the smallest bases (n_splines = 2, 3, 4,
+spline_order 0 … 3) are fitted along L = 0, 1e-3 … 1e6 and compared with the NumPy closed form for the penalty built
+independently from the requested lam (second differences — empty on 2 coefficients — and Kronecker sums; only the model
+matrix is the model's own), with the monotonicity clauses along the real fits and with the null-space limit of that penalty.
 Model side (Lean driver, exact rationals): J via the Penalty / Terms model (`quad`), weighted RSS, penalty value and the
 residual of the model normal equations at the real coefficients on the exported matrices (`neq`).
 """
@@ -269,6 +274,12 @@ def _gridsearch_models(prob, case, pygam, grid):
             kwf = {} if prob['w'] is None else dict(weights=prob['w'])
             scores = base.gridsearch(prob['X'], prob['y'], lam=np.array(flats, dtype=float), return_scores=True, keep_best=False, progress=False, **kwf)
     out = {}
+    if not hasattr(scores, 'items'):
+        # gridsearch swallows the ValueError of a candidate fit and, when no candidate at all could be fitted ("No models
+        # were fitted"), returns the model itself instead of the scores (e.g. data outside the user-given edge knots of a
+        # term: every fit is refused).  Nothing is cached then: `_fit_at` fits each lam through set_params, where a
+        # refusal is recorded as the path status 'ValueError' exactly as on the other routes.
+        return out, getattr(base, '_constraint_l2', None)
     for model in scores:
         got = [float(v) for v in flatten(model.lam)]
         for lam, fl in zip(grid, flats):
@@ -637,6 +648,279 @@ def _witness(ctx, stream, st_neq):
                expected='the sentence as written: increasing any smoothing parameter never decreases the weighted RSS', oracle='real LinearGAM fits; exact model values 2/9 -> 1/5')
 
 
+# ---------------------------------------------------------------------------------------------------------
+# judged against the REQUESTED penalty: smoothing parameters given through the te(...) keyword, and the smallest bases
+# ---------------------------------------------------------------------------------------------------------
+# The random paths above take the varied / fixed penalty matrices from the library's own build_penalties (what is judged
+# there is the fit GIVEN the penalty).  Here the penalty is written down in NumPy from the request alone: a term asked for
+# `lam` and the default ('auto') penalty of a numerical spline term — the second-difference penalty D2'D2, which is the
+# EMPTY penalty on fewer than 3 coefficients — must be fitted with exactly lam * D2'D2 (tensor term: sum over the
+# marginals of lam_j * I x … x D2'D2 x … x I).  Whatever is lost, replaced or reinterpreted between the public
+# constructor and the solve (a falsy value taken for "not given", an entry of a per-marginal list dropped, a different
+# difference order on a small basis) shows up as a fit that is not the penalised WLS fit that was requested.
+REQ_GRID = (0.0, 1e-3, 0.1, 10.0, 1e3, 1e6)
+
+
+def _req_value(v, L, int_zero):
+    if isinstance(v, (list, tuple)):
+        return [_req_value(u, L, int_zero) for u in v]
+    if v == 'L':
+        return 0 if (L == 0 and int_zero) else float(L)       # the integer 0 and 0.0 are the same request
+    return v
+
+
+def _req_terms(spec, L, pygam):
+    """the model terms of `spec` at path parameter L, built through the public constructors s(...) / te(...)"""
+    out = None
+    for d in spec['terms']:
+        kw = {k: _req_value(v, L, spec['int_zero']) for k, v in d['kw'].items()}
+        t = pygam.te(*d['features'], **kw) if d['t'] == 'te' else pygam.s(d['features'][0], **kw)
+        out = t if out is None else out + t
+    return out
+
+
+def _d2(k):
+    D = np.diff(np.eye(int(k)), 2, axis=0)          # (k - 2) x k; no rows when k < 3: nothing is penalised
+    return D.T @ D
+
+
+def _req_penalty(spec, L):
+    """NumPy, from the request alone: block diagonal of the term penalties (+ one unpenalised intercept column)"""
+    blocks = []
+    for d in spec['terms']:
+        nm = len(d['features'])
+        def per(key, default):
+            v = d['kw'].get(key, default)
+            v = list(v) if isinstance(v, (list, tuple)) else [v] * nm
+            return v
+        ks = per('n_splines', 10 if d['t'] == 'te' else 20)
+        lams = [float(L) if v == 'L' else float(v) for v in per('lam', 0.6)]
+        pens = per('penalties', 'auto')
+        m = int(np.prod(ks))
+        P = np.zeros((m, m))
+        for j in range(nm):
+            Pj = _d2(ks[j]) if pens[j] == 'auto' else np.zeros((ks[j], ks[j]))       # None / 'none': no penalty
+            T = np.eye(1)
+            for i in range(nm):
+                T = np.kron(T, Pj if i == j else np.eye(ks[i]))
+            P += lams[j] * T
+        blocks.append(P)
+    m = sum(b.shape[0] for b in blocks) + 1
+    out = np.zeros((m, m))
+    o = 0
+    for b in blocks:
+        out[o:o + b.shape[0], o:o + b.shape[0]] = b
+        o += b.shape[0]
+    return out
+
+
+def gen_requested(rng, tier):
+    """every template in every run (the zeros, the lists and the small bases do not depend on the draw); sizes, fixed
+    values, data and weights are drawn"""
+    ordinary = [0.6, 1.0, 2.0, 0.015625, 2.5, 10.0]
+    specs = []
+
+    def add(kind, name, terms, **kw):
+        d = dict(kind=kind, name=name, terms=terms, seed=rng.randrange(10 ** 9), cls=('LinearGAM', 'GAM')[len(specs) % 2],
+                 n=rng.choice([150, 400]), weights_mode=rng.choice(['none', 'pos', 'zeros']), int_zero=(len(specs) % 3 != 1),
+                 unit=rng.choice([0.01, 1.0, 100.0]), grid=list(REQ_GRID))
+        d.update(kw)
+        specs.append(d)
+
+    reps = 1 if tier == 'quick' else 6
+    for _ in range(reps):
+        k2 = lambda: [rng.choice([4, 5, 6, 7]), rng.choice([4, 5, 6])]
+        c = lambda: rng.choice(ordinary)
+        te = lambda feats, **kw: [dict(t='te', features=feats, kw=kw)]
+        # ---- smoothing parameters through the te(...) keyword: scalar, per-marginal lists, exact zeros
+        add('te-kw', 'te(lam=L)', te([0, 1], n_splines=k2(), lam='L'))
+        add('te-kw', 'te(lam=L), default n_splines', te([0, 1], lam='L'), n=400)
+        add('te-kw', 'te(lam=[L, c])', te([0, 1], n_splines=k2(), lam=['L', c()]))
+        add('te-kw', 'te(lam=[c, L])', te([0, 1], n_splines=k2(), lam=[c(), 'L']))
+        add('te-kw', 'te(lam=[L, 0])', te([0, 1], n_splines=k2(), lam=['L', 0]))
+        add('te-kw', 'te(lam=[0, L])', te([0, 1], n_splines=k2(), lam=[0.0, 'L']))
+        add('te-kw', 'te(lam=[L, L])', te([0, 1], n_splines=k2(), lam=['L', 'L']))
+        add('te-kw', 'te(0, 1, 2, lam=[L, 0, c])', te([0, 1, 2], n_splines=[4, 4, rng.choice([4, 5])], lam=['L', 0, c()]))
+        add('te-kw', 'te(lam=L, penalties=[None, auto])', te([0, 1], n_splines=k2(), lam='L', penalties=[None, 'auto']))
+        add('te-kw', 'te(lam=[0, L], spline_order=[0, 2])', te([0, 1], n_splines=k2(), lam=[0, 'L'], spline_order=[0, 2]))
+        add('te-kw', 'te(lam=[0, L]) + s(2, lam=c)', te([0, 1], n_splines=k2(), lam=[0, 'L']) + [dict(t='s', features=[2], kw=dict(n_splines=6, lam=c()))])
+        add('te-kw', 's(2, lam=c) + te(lam=[L, 0])', [dict(t='s', features=[2], kw=dict(n_splines=6, lam=c()))] + te([0, 1], n_splines=k2(), lam=['L', 0]))
+        # ---- the smallest bases: n_splines = 2 (second differences do not exist: lam has no effect, edof stays 2),
+        # n_splines = 3 (one second difference: the limit is the straight line in the coefficient index), order 0 / 1 / 2
+        for nsp, order in [(2, 1), (2, 0), (3, 0), (3, 1), (3, 2), (4, 1), (4, 3)]:
+            add('small-basis', 's(n_splines=%d, spline_order=%d, lam=L)' % (nsp, order), [dict(t='s', features=[0], kw=dict(n_splines=nsp, spline_order=order, lam='L'))])
+        for nsp, order in [(2, 1), (2, 0), (3, 1)]:
+            add('small-basis', 's(n_splines=%d, spline_order=%d, lam=L) + s(1, lam=c)' % (nsp, order),
+                [dict(t='s', features=[0], kw=dict(n_splines=nsp, spline_order=order, lam='L')), dict(t='s', features=[1], kw=dict(n_splines=rng.choice([5, 8]), lam=c()))])
+        add('small-basis', 'te(n_splines=[2, k], spline_order=[1, 3], lam=[L, c])', te([0, 1], n_splines=[2, rng.choice([5, 6])], spline_order=[1, 3], lam=['L', c()]))
+        add('small-basis', 'te(n_splines=[3, 2], spline_order=[1, 0], lam=[L, L])', te([0, 1], n_splines=[3, 2], spline_order=[1, 0], lam=['L', 'L']))
+    return specs
+
+
+def _req_worker(spec):
+    import warnings
+    warnings.filterwarnings('ignore')
+    from harness.gen import fitgen
+    pygam = common.import_pygam()
+    rs = np.random.default_rng(spec['seed'])
+    n = spec['n']
+    X = np.c_[rs.uniform(0, 1, n), rs.uniform(-2, 3, n), rs.uniform(10, 20, n)]
+    y = spec['unit'] * (np.sin(5 * X[:, 0]) * (1 + 0.5 * X[:, 1]) + 0.3 * np.cos(X[:, 2]) + 0.5 * X[:, 0] + 0.4 * rs.normal(size=n))
+    wm = spec['weights_mode']
+    w = None if wm == 'none' else (rs.choice([0.25, 0.5, 1.0, 2.0, 4.0], size=n) if wm == 'pos' else rs.choice([0.0, 1.0, 2.0], size=n, p=[0.15, 0.55, 0.3]))
+    wv = np.ones(n) if w is None else w.astype(float)
+    pos = wv > 0
+    ysc = float(np.abs(y[pos]).max())
+    P0 = _req_penalty(spec, 0.0)
+    Pvar = _req_penalty(spec, 1.0) - P0
+    m = P0.shape[0]
+    R = P0 + SQRT_EPS * np.eye(m)
+    kw = dict(tol=1e-10, max_iter=300)
+    if spec['cls'] == 'GAM':
+        kw.update(distribution='normal', link='identity')
+
+    def fit(L):
+        try:
+            gam = getattr(pygam, spec['cls'])(_req_terms(spec, L, pygam), **kw)
+        except ValueError as e:
+            return dict(status='ValueError', msg=str(e)[:200])
+        status, out = fitgen.fit_quiet(gam, X, y, w)
+        if status != 'ok':
+            return dict(status=status, msg=out)
+        coef = np.asarray(gam.coef_, dtype=float).ravel()
+        B = _dense(gam.terms.build_columns(X))          # the model's own model matrix
+        if len(coef) != m or B.shape[1] != m or not np.isfinite(coef).all():
+            return dict(status='coef-count', msg='model has %d coefficients, the request has %d' % (len(coef), m))
+        return dict(status='ok', conv=('did not converge' not in out), coef=coef, B=B, mu=np.asarray(gam.predict_mu(X), dtype=float),
+                    edof=float(gam.statistics_['edof']), P=_dense(gam.terms.build_penalties()))
+
+    pts = []
+    B0 = None
+    for L in spec['grid']:
+        f = fit(L)
+        if f['status'] != 'ok':
+            return dict(spec=spec, status=f['status'], msg=f.get('msg', ''), lam=L)
+        B, beta, mu = f['B'], f['coef'], f['mu']
+        B0 = B if B0 is None else B0
+        orc = _oracle(B, R, Pvar, L, wv, y)
+        A = R + L * Pvar
+        acc = _acc(orc['condM'], float(np.linalg.norm(A, 2)), float(np.linalg.norm(beta)), float(np.abs(mu[pos]).max()), orc['K'], float(wv[pos].min()))
+        pts.append(dict(lam=L, conv=f['conv'], acc=acc, edof=f['edof'], edof_np=orc['edof'], rss=float(np.sum(wv * (y - mu) ** 2)),
+                        Rq=float(beta @ R @ beta), J=float(beta @ Pvar @ beta), bnorm2=float(beta @ beta),
+                        d_cf=float(np.abs(mu - B @ orc['beta'])[pos].max() / ysc), d_B=float(np.abs(B - B0).max()),
+                        d_pen=float(np.abs(f['P'] - (P0 + L * Pvar)).max() / (1e-300 + np.abs(P0 + L * Pvar).max() + np.abs(f['P']).max()))))
+    res = dict(spec=spec, status='ok', pts=pts, m=m, other_pen=float(np.abs(P0).max()), pv_zero=bool(np.abs(Pvar).max() == 0),
+               pv_norm=float(np.linalg.norm(Pvar, 2)), ynorm=float(np.sqrt(np.sum(wv * y * y))))
+    # ---- the limit: the weighted least-squares fit within the unpenalised space of the REQUESTED varied penalty (all of
+    # the coefficient space when that penalty is empty), at the largest lam at which a double-precision solve means something
+    beta0, gmin, dim0, _ = _null_fit(B0, R, Pvar, wv, y)
+    mu0 = B0 @ beta0
+    res['null_dim'] = dim0
+    for lam_big in (1e9, 1e8, 1e7, 1e6, 1e5, 1e4, 1e3):
+        orc = _oracle(B0, R, Pvar, lam_big, wv, y)
+        acc = _acc(orc['condM'], float(np.linalg.norm(R + lam_big * Pvar, 2)), float(np.linalg.norm(orc['beta'])), float(np.abs((B0 @ orc['beta'])[pos]).max()), orc['K'], float(wv[pos].min()))
+        if acc > 1e-4:
+            continue
+        f = fit(lam_big)
+        if f['status'] != 'ok':
+            res['limit'] = dict(status=f['status'], lam=lam_big)
+            break
+        # edof of the limit: trace of the hat matrix of the fit restricted to the unpenalised space (NumPy)
+        lamP, V = np.linalg.eigh((Pvar + Pvar.T) / 2)
+        Z = V[:, lamP <= 1e-10 * max(lamP.max(), 1e-300)]
+        Gz = Z.T @ (B0.T @ (wv[:, None] * B0)) @ Z
+        edof0 = float(np.trace(np.linalg.solve(Gz + Z.T @ R @ Z, Gz)))
+        res['limit'] = dict(status='ok', lam=lam_big, conv=f['conv'], acc=acc, edof=f['edof'], edof0=edof0, edof_np=orc['edof'],
+                            d_theory=float(np.abs(B0 @ orc['beta'] - mu0)[pos].max() / ysc), d_train=float(np.abs(f['mu'] - mu0)[pos].max() / ysc))
+        break
+    return res
+
+
+def _judge_requested(r):
+    """-> list of (clause, text) on which the real fits contradict the property for the requested smoothing parameters"""
+    bad = []
+    pts = r['pts']
+    if not all(p['conv'] for p in pts):
+        return None
+    # lam = 0 (and every other lam): the penalised WLS fit for the penalty that was asked for
+    for p in pts:
+        if p['acc'] > 1e-3:
+            continue
+        t = 10 * max(1e-7, p['acc'])
+        if p['d_cf'] > t:
+            bad.append(('lam-zero' if p['lam'] == 0 else 'closed-form',
+                        'path parameter L = %.3g: fitted values differ by %.3g x max|y| from the penalised weighted least-squares fit for the requested smoothing parameters%s (penalty matrix of the model differs from the requested one by %.3g relative)'
+                        % (p['lam'], p['d_cf'], ' — at 0: unpenalised WLS on the basis' if p['lam'] == 0 else '', p['d_pen'])))
+        elif abs(p['edof'] - p['edof_np']) > t * (1 + abs(p['edof_np'])):
+            bad.append(('edof', 'path parameter L = %.3g: statistics_[edof] = %.10g, trace of the hat matrix for the requested smoothing parameters = %.10g' % (p['lam'], p['edof'], p['edof_np'])))
+    # monotone along the path of REAL fits (nothing but the fits themselves and the requested fixed part enter)
+    fails, _lit = _judge_path(r)
+    bad += [('monotone', f_) for f_ in fails]
+    lim = r.get('limit')
+    if lim and lim.get('status') == 'ok' and lim['conv'] and lim['d_theory'] <= 1e-3:
+        tl_ = 10 * max(1e-7, 10 * lim['acc'])
+        if lim['d_train'] > 10 * (lim['d_theory'] + tl_):
+            bad.append(('limit', 'L = %.3g: fitted values differ by %.3g x max|y| from the weighted least-squares fit within the unpenalised space (dimension %d of %d) of the requested penalty; the penalised WLS solution itself is within %.3g'
+                        % (lim['lam'], lim['d_train'], r['null_dim'], r['m'], lim['d_theory'])))
+        # edof of the limit (e.g. 2 for two coefficients under a second-difference penalty, whatever lam)
+        elif abs(lim['edof'] - lim['edof0']) > 10 * (abs(lim['edof_np'] - lim['edof0']) + tl_ * (1 + lim['edof0'])):
+            bad.append(('limit-edof', 'L = %.3g: edof = %.10g, but the fit within the unpenalised space of the requested penalty has %.10g (hat matrix for the requested penalty at this lam: %.10g)' % (lim['lam'], lim['edof'], lim['edof0'], lim['edof_np'])))
+    return bad
+
+
+def run_requested(ctx, pool_size=16):
+    st_te, st_sb = 'route.te-keyword', 'limit.small-basis'
+    ctx.stream(st_te, 'tensor terms with lam given through the te(...) keyword (scalar, per-marginal lists, exact zeros, next to other keywords / terms), in every run: '
+                      'along L = 0, 1e-3 … 1e6 fitted values and edof == NumPy closed form for the penalty built independently from the REQUESTED lam (model\'s own model matrix), '
+                      'edof / RSS + fixed penalties monotone along the real fits starting at exactly 0, large-lam fit == WLS within the unpenalised space of the requested penalty')
+    ctx.stream(st_sb, 'the smallest bases in every run (n_splines = 2, 3, 4 with spline_order 0 … 3, alone, next to another term and as a tensor marginal): the default penalty is the second-difference '
+                      'penalty written down in NumPy (empty on 2 coefficients); the same judgments — in particular as lam grows the fit tends to the WLS fit within that penalty\'s unpenalised space and edof to its dimension')
+    specs = gen_requested(ctx.subrng('requested'), ctx.tier)
+    with mp.get_context('fork').Pool(min(pool_size, len(specs))) as pool:
+        results = pool.map(_req_worker_safe, specs, chunksize=1)
+    for r in results:
+        spec = r['spec']
+        st = st_te if spec['kind'] == 'te-kw' else st_sb
+        sig = dict(spec=spec)
+        ctx.count('requested-penalty cases', spec['name'])
+        if r['status'] != 'ok':
+            ctx.count('requested-penalty status', r['status'])
+            ctx.case(st, sig, nontrivial=False)
+            if r['status'] != 'oracle-linalg-error':
+                # every request here is a valid one (the unchanged library fits them all): a refusal is a failing input too
+                ctx.fail(st, dict(kind='not-fitted', exc=r['status'], name=spec['name']), dict(spec=spec, lam=r.get('lam')), observed='%s: %s' % (r['status'], r.get('msg', '')),
+                         expected='a fit for a valid request', oracle='the request is a documented use of s(...) / te(...)')
+            continue
+        bad = _judge_requested(r)
+        if bad is None:
+            ctx.count('requested-penalty status', 'a fit did not converge')
+            ctx.case(st, sig, nontrivial=False)
+            continue
+        ctx.case(st, sig, nontrivial=True, sample=dict(name=spec['name'], cls=spec['cls'], n=spec['n'], edof=[round(p['edof'], 6) for p in r['pts']]))
+        ctx.count('requested-penalty: null space dimension of the varied part / coefficients', '%d / %d' % (r['null_dim'], r['m']))
+        ctx.count('requested-penalty: log10(closed-form distance / tolerance)', _lb(max(p['d_cf'] / (10 * max(1e-7, p['acc'])) for p in r['pts'])))
+        if r.get('limit', {}).get('status') == 'ok':
+            ctx.count('requested-penalty: limit lam decade', _lb(r['limit']['lam']))
+        if bad:
+            r2 = _req_worker_safe(spec)          # re-executed on the real code
+            bad2 = _judge_requested(r2) if r2['status'] == 'ok' else None
+            if not bad2:
+                ctx.count('not reproduced on re-execution', 'requested-penalty')
+                continue
+            ctx.fail(st, dict(kind=bad2[0][0], name=spec['name'], cls=spec['cls']), dict(spec=spec, m=r['m'], how='terms built by s(...) / te(...) with kw of spec.terms, "L" replaced by the path parameter; data from spec.seed (see _req_worker)'),
+                     observed=[b[1] for b in bad2[:4]],
+                     expected='for the smoothing parameters as requested: lam = 0 is unpenalised weighted least squares on the basis; edof non-increasing and RSS (+ fixed penalties) non-decreasing in lam; '
+                              'as lam grows the fit tends to the WLS fit within the penalty\'s unpenalised space',
+                     oracle='NumPy: thin QR of [sqrt(W)B; E] with B the model\'s own model matrix and E\'E = sqrt(eps) I + the penalty built from the request (second differences, Kronecker sums for tensor terms); null-space WLS')
+
+
+def _req_worker_safe(spec):
+    try:
+        return _req_worker(spec)
+    except np.linalg.LinAlgError as e:       # of the NumPy oracle formulas
+        return dict(spec=spec, status='oracle-linalg-error', msg=str(e)[:100])
+
+
 def run_extreme(ctx):
     """one smoothing parameter far beyond the others (1e12 … 1e16 next to ordinary values): in exact arithmetic edof is
     non-increasing along the path (theorem C13.edof_antitone) and the heavily penalised term has reached its limit long
@@ -881,6 +1165,7 @@ def run(ctx):
     ctx.partial.append('the limit lam -> infinity is proved in quantitative form (squeeze, limit_distance), not as a topological limit; IEEE rounding is covered by the tolerances only')
     ctx.assumptions.append('existence of a simultaneous diagonalisation of a positive definite and a PSD matrix (C13 edof monotonicity only)')
     run_extreme(ctx)
+    run_requested(ctx)
 
 
 def replay(ctx, rp):
